@@ -318,8 +318,17 @@ def cmd_check(pid, tier, seed, jobs):
     confirmed = 0
     unconfirmed = 0
     seen_labels = {}
-    for params, label, assignment, detail in violations:
-        if seen_labels.get(label, 0) >= 2:
+    seen_inst = set()
+    # distinct (label, instance) pairs first; at most 2 per pair-label and 8 in total are replayed
+    violations.sort(key=lambda v: 0)
+    ordered = []
+    rest = []
+    for v in violations:
+        key = (v[1], json.dumps(_jsonable(v[0]), sort_keys=True))
+        (rest if key in seen_inst else ordered).append(v)
+        seen_inst.add(key)
+    for params, label, assignment, detail in ordered + rest:
+        if seen_labels.get(label, 0) >= 4 or sum(seen_labels.values()) >= 8:
             continue
         seen_labels[label] = seen_labels.get(label, 0) + 1
         path = _write_replay(pid, tier, params, assignment, label, detail, "violation")
